@@ -26,6 +26,9 @@ from fractions import Fraction
 import numpy as np
 
 logging.disable(logging.CRITICAL)
+np.seterr(all="ignore")
+import warnings
+warnings.filterwarnings("ignore", category=RuntimeWarning)
 
 import syne_tune.report as R
 import syne_tune.constants as C
